@@ -114,6 +114,7 @@ func verifWireOf(q []verifEntry) []byte {
 // stage, DUP only on re-deliveries, original identifiers.
 func (o *verifOut) observe(tag string) {
 	c := o.c
+	verifTokensHome(c, tag)
 	saved := o.store.faults
 	o.store.faults = 0
 	obs := &verifConn{}
